@@ -39,6 +39,7 @@ pub fn probes(_tier: &str) -> Vec<String> {
     "fault.verifier.mismatching_list_supplied",
     "fault.host.stale_version_fetched",
     "probe.raw_list_ops",
+    "fault.issuer.malformed_status_entry",
     "probe.dense_large_list",
   ]
   .iter()
@@ -332,6 +333,34 @@ pub fn run(_params: &Params) {
       let Some(sv) = served[fetch_from].get(fv) else { continue };
       let Ok(list_cred) = StatusList2021Credential::from_json(&sv.json) else { continue };
       let mode = [StatusCheck::Strict, StatusCheck::SkipUnsupported, StatusCheck::SkipAll][ctx::choose(3)];
+      // a status entry as another implementation might have written it: a required member missing or malformed.
+      // Such an entry is not a StatusList2021Entry of any purpose and must be reported as invalid status.
+      let mut cred = cred;
+      let mut malformed_entry = false;
+      if ctx::choose(6) == 0 {
+        let mut cj = serde_json::to_value(&cred).unwrap();
+        if let Some(st) = cj.get_mut("credentialStatus").and_then(|s| s.as_object_mut()) {
+          match ctx::choose(4) {
+            0 => {
+              st.remove("statusPurpose");
+            }
+            1 => {
+              st.remove("statusListIndex");
+            }
+            2 => {
+              st.insert("statusListIndex".into(), "-1".into());
+            }
+            _ => {
+              st.remove("statusListCredential");
+            }
+          }
+          if let Ok(c2) = Credential::<Object>::from_json_value(cj) {
+            cred = c2;
+            malformed_entry = true;
+            ctx::stat("fault.issuer.malformed_status_entry");
+          }
+        }
+      }
       let r = ctx::catch(|| JwtCredentialValidatorUtils::check_status_with_status_list_2021(&cred, &list_cred, mode));
       let r = match r {
         Ok(r) => r,
@@ -348,7 +377,7 @@ pub fn run(_params: &Params) {
       };
       let want: &str = if mode == StatusCheck::SkipAll {
         "Ok"
-      } else if !matches {
+      } else if malformed_entry || !matches {
         "InvalidStatus"
       } else if is_set && models[cl].purpose == StatusPurpose::Revocation {
         "Revoked"
